@@ -1,6 +1,7 @@
 import Dtr.Proofs.Run
 import Dtr.Proofs.ScopeDiscipline
 import Dtr.Proofs.KeysOK
+import Dtr.Proofs.RunErr
 /-!
 # C01 — control flow and variables determine exactly which rows run, and in what order
 
@@ -222,5 +223,41 @@ theorem ForRun_count (D : Device W) (var : String) (n : Int64) (body : List Stmt
     have := ih hn
     push_cast
     omega
+
+/-! ### runs that end in an evaluation error -/
+
+/-- **The refinement also holds for runs that end in an evaluation error.**  When the sequential
+reading of the block meets its first statement that cannot be evaluated (error `e`) in system state
+`σe` — whose log holds exactly the rows yielded until then — the iterator reaches, by the same
+micro-steps, a position in that very system state whose next turn returns `e`: the rows before the
+error are exactly the prescribed ones, in order, and nothing is yielded after them. -/
+theorem C01_error_refines (fuel : Nat) (ss rest : List Stmt) (σ : Sys W) (e : ExprErr) (σe : Sys W)
+    (h : errBlock D fuel ss σ = some (e, σe)) :
+    ∃ it, Steps D (.mk (ss ++ rest) .iterate, σ) (it, σe) ∧ step it σe.ctx = .err e :=
+  (esound D fuel).block ss rest σ e σe h
+
+/-- **Repeated `next` yields exactly the rows before the error, in order, then the error.**  A caller
+who keeps calling `next_with_context` (the device reacting after every yielded row) receives the error
+`e` after finitely many calls, having seen the same rows and with the device in the same state as in
+the sequential reading. -/
+theorem C01_next_yields_then_error (fuel : Nat) (ss : List Stmt) (σ : Sys W) (e : ExprErr) (σe : Sys W)
+    (h : errBlock D fuel ss σ = some (e, σe)) :
+    ∃ f σe', runNextE D f f (It.new ss) σ = some (e, σe') ∧ σe'.log = σe.log ∧ σe'.world = σe.world := by
+  obtain ⟨it, hs, he⟩ := C01_error_refines D fuel ss [] σ e σe h
+  simp only [List.append_nil] at hs
+  have h1 : runAllE D 1 it σe = some (e, σe) := by simp [runAllE, he]
+  obtain ⟨f, hf⟩ := Steps_runAllE D hs 1 _ h1
+  obtain ⟨σe', hr, hl, hw⟩ := runAllE_runNextE D f _ σ e σe hf
+  exact ⟨f, σe', hr, hl, hw⟩
+
+/-- Non-vacuity: the second pass of the loop divides by zero; one row was yielded before. -/
+def exProgErr : List Stmt :=
+  [.loop "i" (.num 3) [.row [.expr (.bin .div (.num 6) (.bin .sub (.num 1) (.var "i")))] 2],
+   .row [.num 1] 4]
+
+example : ((errBlock exDev 20 exProgErr ⟨{ rng := default }, (), []⟩).map
+    (fun p => (p.1, p.2.log.map (fun r => (r.entries, r.line))))) =
+    some (.divZero, [([.num 6], 2)]) := by
+  decide
 
 end Dtr
